@@ -42,7 +42,10 @@ def _on_alarm(signum, frame):
 def bootstrap(spec):
     from pvmon import common
 
-    os.environ["TZ"] = "UTC"
+    if spec.get("suite"):
+        os.environ.pop("TZ", None)        # tests/tz/test_local_timezone.py inspects the environment itself
+    else:
+        os.environ["TZ"] = "UTC"
     os.environ["PENDULUM_EXTENSIONS"] = "0" if spec["config"] == "ext0" else "1"
     time.tzset()
     src = os.path.join(common.REPO, "src")
@@ -99,7 +102,11 @@ def main():
             cases = [spec["replay"]]
         elif spec.get("suite"):
             cases = []
-            M.count("suite_rc", _run_suite(spec) + 1000)
+            rc_, lost_ = _run_suite(spec)
+            M.count("suite_rc", rc_ + 1000)
+            M.count("suite_stable_pass_lost", max(lost_, 0))
+            if lost_ != 0:
+                M.notes.append(f"suite under contracts: {spec.get('_suite')}")
         else:
             cases = mod.cases(M)
         n = 0
@@ -144,13 +151,34 @@ def main():
 
 
 def _run_suite(spec):
-    """the repository's own suite with this property's contracts attached (realistic call sequences)"""
+    """the repository's own suite with this property's contracts attached (realistic call sequences);
+    also the transparency gate: the stable pass set of BASELINE.json must be reproduced exactly"""
+    import xml.etree.ElementTree as ET
+
     import pytest
 
     from pvmon import common
 
     os.chdir(common.REPO)
-    return int(pytest.main(["-q", "--no-header", "-p", "no:cacheprovider", "--tb=no", "tests"]))
+    xml = spec["out"] + ".junit.xml"
+    rc = int(pytest.main(["-q", "--no-header", "-p", "no:cacheprovider", "--tb=no", f"--junitxml={xml}", os.path.join(common.REPO, "tests")]))
+    lost = -1
+    try:
+        base = set(json.load(open("/root/.vp/BASELINE.json"))["stable_pass"])
+        passed = set()
+        for tc in ET.parse(xml).getroot().iter("testcase"):
+            if not any(c.tag in ("failure", "error", "skipped") for c in tc):
+                passed.add(f"{tc.get('classname')}::{tc.get('name')}")
+        lost = len(base - passed)
+        spec["_suite"] = {"passed": len(passed), "lost": sorted(base - passed)[:10]}
+    except Exception as e:  # noqa: BLE001
+        spec["_suite"] = {"error": repr(e)}
+    finally:
+        try:
+            os.remove(xml)
+        except OSError:
+            pass
+    return rc, lost
 
 
 if __name__ == "__main__":
